@@ -3,6 +3,8 @@ package main
 import (
 	"fmt"
 	"go/types"
+	"os"
+	"path/filepath"
 )
 
 // lemmaObligations: standalone spec-level lemmas tagged with the property.
@@ -11,6 +13,20 @@ func (e *Engine) lemmaObligations(prop string) (map[*Obligation]*FuncCtx, []*Obl
 	var obls []*Obligation
 	for _, lm := range e.cs.Lemmas {
 		if !hasProp(lm.Props, prop) {
+			continue
+		}
+		if lm.RawFile != "" {
+			data, err := os.ReadFile(lm.RawFile)
+			if err != nil {
+				return ctxs, obls, fmt.Errorf("lemma %s: %v", lm.Name, err)
+			}
+			c := newFuncCtx(e, lm.Mode, "lemma")
+			c.assume("lemma " + lm.Name + " is stated directly in SMT-LIB (" + filepath.Base(lm.RawFile) + "); its link to the code is the contract that names the same spec function")
+			ob := &Obligation{Name: "lemma#" + lm.Name, Class: "lemma", Props: lm.Props, Guard: "true", Goal: "true", Src: "SMT-LIB lemma " + filepath.Base(lm.RawFile), Raw: string(data)}
+			c.addObligation(ob)
+			ob.Func = "lemma"
+			ctxs[ob] = c
+			obls = append(obls, ob)
 			continue
 		}
 		c := newFuncCtx(e, lm.Mode, "lemma")
